@@ -260,3 +260,60 @@ package util
 //@   requires c != nil
 //@   nopanic
 //@   ensures result == (!c.IsCA && !c.SelfSigned)
+
+// ---------------------------------------------------------------------------
+// ETSI QC statements (C02). The twelve qcstatem lints assert the dynamic type of what
+// ParseQcStatem returns (s.(util.Etsi423QcType), ...) after checking that the statement is present
+// and free of errors; what makes those assertions safe is the relation between the OID that was
+// sought and the type that is returned, stated here as ParseQcStatem's postcondition and proved
+// from its body. qcPresent / qcErr are what IsPresent / GetErrorInfo return for each of the seven
+// types that implement EtsiQcStmtIf by value (all through the embedded etsiBase; census iface-impl).
+//@ spec qcKnown(x EtsiQcStmtIf) bool = typeIs(x, etsiBase) || typeIs(x, Etsi421QualEuCert) || typeIs(x, Etsi423QcType) || typeIs(x, EtsiQcSscd) || typeIs(x, EtsiQcLimitValue) || typeIs(x, EtsiQcRetentionPeriod) || typeIs(x, EtsiQcPds)
+//@ spec qcPresent(x EtsiQcStmtIf) bool = ite(typeIs(x, etsiBase), unbox(x, etsiBase).isPresent, ite(typeIs(x, Etsi421QualEuCert), unbox(x, Etsi421QualEuCert).etsiBase.isPresent, ite(typeIs(x, Etsi423QcType), unbox(x, Etsi423QcType).etsiBase.isPresent, ite(typeIs(x, EtsiQcSscd), unbox(x, EtsiQcSscd).etsiBase.isPresent, ite(typeIs(x, EtsiQcLimitValue), unbox(x, EtsiQcLimitValue).etsiBase.isPresent, ite(typeIs(x, EtsiQcRetentionPeriod), unbox(x, EtsiQcRetentionPeriod).etsiBase.isPresent, ite(typeIs(x, EtsiQcPds), unbox(x, EtsiQcPds).etsiBase.isPresent, false)))))))
+//@ spec qcErr(x EtsiQcStmtIf) string = ite(typeIs(x, etsiBase), unbox(x, etsiBase).errorInfo, ite(typeIs(x, Etsi421QualEuCert), unbox(x, Etsi421QualEuCert).etsiBase.errorInfo, ite(typeIs(x, Etsi423QcType), unbox(x, Etsi423QcType).etsiBase.errorInfo, ite(typeIs(x, EtsiQcSscd), unbox(x, EtsiQcSscd).etsiBase.errorInfo, ite(typeIs(x, EtsiQcLimitValue), unbox(x, EtsiQcLimitValue).etsiBase.errorInfo, ite(typeIs(x, EtsiQcRetentionPeriod), unbox(x, EtsiQcRetentionPeriod).etsiBase.errorInfo, ite(typeIs(x, EtsiQcPds), unbox(x, EtsiQcPds).etsiBase.errorInfo, "")))))))
+//@ spec qcOidsDistinct() bool =
+//@      !oidEq(IdEtsiQcsQcCompliance, IdEtsiQcsQcLimitValue) && !oidEq(IdEtsiQcsQcCompliance, IdEtsiQcsQcRetentionPeriod) && !oidEq(IdEtsiQcsQcCompliance, IdEtsiQcsQcSSCD) &&
+//@      !oidEq(IdEtsiQcsQcCompliance, IdEtsiQcsQcEuPDS) && !oidEq(IdEtsiQcsQcCompliance, IdEtsiQcsQcType) && !oidEq(IdEtsiQcsQcLimitValue, IdEtsiQcsQcRetentionPeriod) &&
+//@      !oidEq(IdEtsiQcsQcLimitValue, IdEtsiQcsQcSSCD) && !oidEq(IdEtsiQcsQcLimitValue, IdEtsiQcsQcEuPDS) && !oidEq(IdEtsiQcsQcLimitValue, IdEtsiQcsQcType) &&
+//@      !oidEq(IdEtsiQcsQcRetentionPeriod, IdEtsiQcsQcSSCD) && !oidEq(IdEtsiQcsQcRetentionPeriod, IdEtsiQcsQcEuPDS) && !oidEq(IdEtsiQcsQcRetentionPeriod, IdEtsiQcsQcType) &&
+//@      !oidEq(IdEtsiQcsQcSSCD, IdEtsiQcsQcEuPDS) && !oidEq(IdEtsiQcsQcSSCD, IdEtsiQcsQcType) && !oidEq(IdEtsiQcsQcEuPDS, IdEtsiQcsQcType)
+
+//@ pkginv qcOidsDistinct() by census:qcoids
+
+//@ func (etsiBase).IsPresent [C02]
+//@   pure heapfree
+//@   nopanic
+//@   ensures result == this.isPresent
+//@ func (etsiBase).GetErrorInfo [C02]
+//@   pure heapfree
+//@   nopanic
+//@   ensures result == this.errorInfo
+//@ interface EtsiQcStmtIf.IsPresent
+//@   requires qcKnown(this)
+//@   pure heapfree
+//@   nopanic
+//@   ensures result == qcPresent(this)
+//@ interface EtsiQcStmtIf.GetErrorInfo
+//@   requires qcKnown(this)
+//@   pure heapfree
+//@   nopanic
+//@   ensures result == qcErr(this)
+
+//@ func AppendToStringSemicolonDelim [C02]
+//@   requires this != nil
+//@   nopanic
+//@   assigns *this
+
+//@ func checkAsn1Reencoding [C02]
+//@   pure
+//@   nopanic
+
+//@ func ParseQcStatem [C02]
+//@   requires qcOidsDistinct()
+//@   pure
+//@   nopanic
+//@   ensures qcKnown(result)
+//@   ensures implies(qcPresent(result) && qcErr(result) == "" && oidEq(sought, IdEtsiQcsQcType), typeIs(result, Etsi423QcType))
+//@   ensures implies(qcPresent(result) && qcErr(result) == "" && oidEq(sought, IdEtsiQcsQcEuPDS), typeIs(result, EtsiQcPds))
+//@   ensures implies(qcPresent(result) && qcErr(result) == "" && oidEq(sought, IdEtsiQcsQcRetentionPeriod), typeIs(result, EtsiQcRetentionPeriod))
+//@   ensures implies(qcPresent(result) && qcErr(result) == "" && oidEq(sought, IdEtsiQcsQcLimitValue), typeIs(result, EtsiQcLimitValue))
